@@ -32,6 +32,6 @@ for sid in sorted(r):
     key = key.split(" key=")[-1][:80] if key else ""
     esc = lambda s: str(s).replace("|", "/").replace("\n", " ")
     out.append(f"| {sid} | {o} | {esc(meta.get('summary',''))[:160]} | {esc(meta.get('needs_to_manifest',''))[:120]} | {'fires' if o in fired else 'silent'} | {('fires' if off.get(sid, {}).get('caught_by_own_check') else 'silent') if sid in off else '-'} | `{esc(key)}` | {' '.join(p for p in fired if p != o)} |")
-out.insert(7, f"**{n} seeds evaluated: {own} reported by the check of the property they were written against, {anyc} reported by at least one check.**\n")
+out.insert(next(i for i, l in enumerate(out) if l.startswith('| seed |')), f"**{n} seeds evaluated: {own} reported by the check of the property they were written against, {anyc} reported by at least one check.**\n")
 open(os.path.join(V, "seeded", "RESULTS.md"), "w").write("\n".join(out) + "\n")
 print(n, own, anyc)
